@@ -307,7 +307,8 @@ struct Pending {
 }
 
 struct Th {
-    tx: Sender<Cmd>,
+    /// None: this logical thread is the process's main thread (run inline)
+    tx: Option<Sender<Cmd>>,
     handle: Option<JoinHandle<()>>,
     pending: Option<Pending>,
     probe_armed: bool,
@@ -328,6 +329,8 @@ pub struct Runner {
     res: RunResult,
     seq: u32,
     watchdog: Duration,
+    /// T0 is the main thread, executed inline by the runner
+    main_root: bool,
 }
 
 pub const WATCHDOG_SECS: u64 = 30;
@@ -347,6 +350,7 @@ impl Runner {
             res: RunResult::default(),
             seq: 0,
             watchdog: Duration::from_secs(WATCHDOG_SECS),
+            main_root: false,
         }
     }
 
@@ -456,6 +460,27 @@ impl Runner {
 
     /// Spawn the root thread from the runner (which never touches fpdec).
     fn spawn_root(&mut self, plan: &Plan) -> HResult<()> {
+        if plan.root_is_main {
+            // T0 = the thread we are on.  Nothing to spawn.
+            self.main_root = true;
+            self.threads.insert(
+                0,
+                Th {
+                    tx: None,
+                    handle: None,
+                    pending: None,
+                    probe_armed: false,
+                    mode: HALF_EVEN,
+                    prev_mode: None,
+                    inherit_mode: None,
+                },
+            );
+            self.ever.push(0);
+            let mut e = self.blank(u32::MAX, 0, EvKind::Spawn { child: 0 });
+            e.tid = ALL;
+            self.push(e);
+            return Ok(());
+        }
         let (tx, rx) = channel();
         let api = if plan.root_api_builder { Api::Builder } else { Api::Std };
         let h = spawn_sim_thread(
@@ -473,7 +498,7 @@ impl Runner {
         self.threads.insert(
             0,
             Th {
-                tx,
+                tx: Some(tx),
                 handle: Some(h),
                 pending: None,
                 probe_armed: plan.root_probe_early,
@@ -504,17 +529,28 @@ impl Runner {
         let (tx, rx) = channel();
         let parent_mode = self.threads[&tid].mode;
         let ev = self.blank(step, tid, EvKind::Spawn { child });
-        self.threads[&tid]
-            .tx
-            .send(Cmd::Spawn {
-                child,
-                api,
-                probe_early,
-                rx,
-                reply: self.reply_tx.clone(),
-            })
-            .map_err(|_| format!("T{}: command channel closed", tid))?;
         let mut handle = None;
+        match &self.threads[&tid].tx {
+            Some(tx) => tx
+                .send(Cmd::Spawn {
+                    child,
+                    api,
+                    probe_early,
+                    rx,
+                    reply: self.reply_tx.clone(),
+                })
+                .map_err(|_| format!("T{}: command channel closed", tid))?,
+            None => {
+                // the main thread is the parent: spawn right here
+                handle = Some(spawn_sim_thread(
+                    child,
+                    api,
+                    rx,
+                    self.reply_tx.clone(),
+                    probe_early,
+                )?);
+            }
+        }
         let mut ready = false;
         while handle.is_none() || !ready {
             match self.recv()? {
@@ -539,7 +575,7 @@ impl Runner {
         self.threads.insert(
             child,
             Th {
-                tx,
+                tx: Some(tx),
                 handle,
                 pending: None,
                 probe_armed: probe_early,
@@ -559,6 +595,8 @@ impl Runner {
     fn drive_op(&mut self, step: u32, tid: u32, cmd: Cmd) -> HResult<()> {
         self.threads[&tid]
             .tx
+            .as_ref()
+            .ok_or("drive_op on the main thread")?
             .send(cmd)
             .map_err(|_| format!("T{}: command channel closed", tid))?;
         let reply = match self.recv()? {
@@ -640,7 +678,30 @@ impl Runner {
             foreign_set_in_flight: p.foreign_set,
         };
         let _ = p.step;
+        let n = info.n_reent as usize;
+        let seen: Vec<u8> = info.reent_modes[..n].to_vec();
+        let model = e.model_mode;
         self.push(e);
+        for (k, m) in seen.iter().enumerate() {
+            if *m != model {
+                self.violation(
+                    "L1",
+                    "reentrant-read".into(),
+                    step,
+                    format!(
+                        "T{}: default() called from inside the sink's write #{} \
+                         (in the middle of Display) gave {} but the mode last \
+                         set by T{} is {}",
+                        tid,
+                        k + 1,
+                        if *m == 255 { "a panic".to_string() } else { MODE_NAMES[*m as usize].to_string() },
+                        tid,
+                        MODE_NAMES[model as usize]
+                    ),
+                );
+                break;
+            }
+        }
     }
 
     /// Join a thread that was told to exit or is unwinding; collect the
@@ -735,6 +796,8 @@ impl Runner {
                 th.probe_armed = true;
             }
             th.tx
+                .as_ref()
+                .ok_or("exit of the main thread")?
                 .send(Cmd::Exit { probe_late })
                 .map_err(|_| format!("T{}: command channel closed", tid))?;
         }
@@ -743,12 +806,31 @@ impl Runner {
     }
 
     fn do_simple(&mut self, step: u32, tid: u32, set: Option<u8>) -> HResult<()> {
+        if self.threads[&tid].tx.is_none() {
+            // the main thread: run the call right here
+            let o = match set {
+                Some(m) => {
+                    let r = catch_unwind(|| {
+                        RoundingMode::set_default(MODES[m as usize])
+                    });
+                    if r.is_ok() { Outcome::Unit } else { Outcome::Panicked }
+                }
+                None => match catch_unwind(|| mode_index(RoundingMode::default())) {
+                    Ok(m) => Outcome::Mode(m),
+                    Err(_) => Outcome::Panicked,
+                },
+            };
+            self.simple_result(step, tid, set, o);
+            return Ok(());
+        }
         let cmd = match set {
             Some(m) => Cmd::Set(m),
             None => Cmd::Read,
         };
         self.threads[&tid]
             .tx
+            .as_ref()
+            .unwrap()
             .send(cmd)
             .map_err(|_| format!("T{}: command channel closed", tid))?;
         let reply = match self.recv()? {
@@ -760,41 +842,7 @@ impl Runner {
         };
         match reply {
             Reply::Done(t, o, _) if t == tid => {
-                match set {
-                    Some(m) => {
-                        let mut e = self.blank(step, tid, EvKind::Set(m));
-                        e.outcome = o.clone();
-                        self.push(e);
-                        if o != Outcome::Unit {
-                            self.violation(
-                                "L1",
-                                "set-panicked".into(),
-                                step,
-                                format!("T{}: set_default panicked", tid),
-                            );
-                        }
-                        let th = self.threads.get_mut(&tid).unwrap();
-                        th.prev_mode = Some(th.mode);
-                        th.mode = m;
-                        th.inherit_mode = None;
-                        self.global_last = Some(m);
-                        // a foreign set while some other thread's op is in flight
-                        for (t2, th2) in self.threads.iter_mut() {
-                            if *t2 != tid {
-                                if let Some(p) = th2.pending.as_mut() {
-                                    p.foreign_set = true;
-                                    p.others_mask |= 1 << m;
-                                }
-                            }
-                        }
-                    }
-                    None => {
-                        let mut e = self.blank(step, tid, EvKind::Read);
-                        e.outcome = o.clone();
-                        self.push(e);
-                        self.check_read(step, tid, &o, "read");
-                    }
-                }
+                self.simple_result(step, tid, set, o);
                 Ok(())
             }
             Reply::Harness(t, msg) => Err(format!("T{}: {}", t, msg)),
@@ -802,6 +850,45 @@ impl Runner {
                 "T{}: reply from a thread that does not hold the baton",
                 tid
             )),
+        }
+    }
+
+    /// Book-keeping after a `set_default` / `default()` call returned.
+    fn simple_result(&mut self, step: u32, tid: u32, set: Option<u8>, o: Outcome) {
+        match set {
+            Some(m) => {
+                let mut e = self.blank(step, tid, EvKind::Set(m));
+                e.outcome = o.clone();
+                self.push(e);
+                if o != Outcome::Unit {
+                    self.violation(
+                        "L1",
+                        "set-panicked".into(),
+                        step,
+                        format!("T{}: set_default panicked", tid),
+                    );
+                }
+                let th = self.threads.get_mut(&tid).unwrap();
+                th.prev_mode = Some(th.mode);
+                th.mode = m;
+                th.inherit_mode = None;
+                self.global_last = Some(m);
+                // a foreign set while some other thread's op is in flight
+                for (t2, th2) in self.threads.iter_mut() {
+                    if *t2 != tid {
+                        if let Some(p) = th2.pending.as_mut() {
+                            p.foreign_set = true;
+                            p.others_mask |= 1 << m;
+                        }
+                    }
+                }
+            }
+            None => {
+                let mut e = self.blank(step, tid, EvKind::Read);
+                e.outcome = o.clone();
+                self.push(e);
+                self.check_read(step, tid, &o, "read");
+            }
         }
     }
 
@@ -820,6 +907,20 @@ impl Runner {
                 foreign_set: false,
             }
         };
+        if self.threads[&tid].tx.is_none() {
+            // the main thread: run the operation right here, without parking
+            // (a parked main thread could not schedule anybody)
+            let mut op2 = op.clone();
+            if let Op::Fmt { pauses, .. } = &mut op2 {
+                pauses.clear();
+            }
+            let mut p = p;
+            p.op = op2.clone();
+            let mut info = SinkInfo::default();
+            let o = exec_caught(&op2, &mut |_| {}, &mut info);
+            self.finish_op(step, tid, p, o, info);
+            return Ok(());
+        }
         self.threads.get_mut(&tid).unwrap().pending = Some(p);
         let cmd = if die { Cmd::Die(op.clone()) } else { Cmd::Op(op.clone()) };
         self.drive_op(step, tid, cmd)
@@ -871,6 +972,12 @@ impl Runner {
             Action::Set(m) => self.do_simple(ix, tid, Some(*m)),
             Action::Read => self.do_simple(ix, tid, None),
             Action::Op(op) => self.start_op(ix, tid, op, false),
+            Action::Die(_) | Action::Exit { .. }
+                if self.main_root && tid == 0 =>
+            {
+                self.skip(ix, tid, "the main thread does not end");
+                Ok(())
+            }
             Action::Die(op) => self.start_op(ix, tid, op, true),
             Action::Exit { probe_late } => self.do_exit(ix, tid, *probe_late),
             Action::Sweep => unreachable!(),
@@ -888,7 +995,9 @@ impl Runner {
             self.step(ix as u32, st.tid, &st.action)?;
             // cross-invariant: the model and the set of OS threads we hold
             // handles for are the same set
-            if self.threads.values().any(|t| t.handle.is_none()) {
+            if self.threads.iter().any(|(id, t)| {
+                t.handle.is_none() && !(self.main_root && *id == 0)
+            }) {
                 return Err("live thread without a join handle".into());
             }
         }
@@ -917,7 +1026,12 @@ impl Runner {
             self.sweep(u32::MAX)?;
         }
         if !self.res.blocked {
-            let ids: Vec<u32> = self.threads.keys().copied().collect();
+            let ids: Vec<u32> = self
+                .threads
+                .iter()
+                .filter(|(_, th)| th.tx.is_some())
+                .map(|(t, _)| *t)
+                .collect();
             for t in ids {
                 self.do_exit(u32::MAX, t, false)?;
             }
